@@ -134,7 +134,8 @@ func libFrame() string {
 	fr := runtime.CallersFrames(pcs[:n])
 	for {
 		f, more := fr.Next()
-		if strings.HasPrefix(f.Function, "github.com/sdcio/yang-parser/") {
+		if strings.HasPrefix(f.Function, "github.com/sdcio/yang-parser/") && !strings.HasSuffix(f.Function, ".recover") {
+			// a library function named recover only re-raises; the frames of the original panic are still below it
 			return strings.TrimPrefix(f.Function, "github.com/sdcio/yang-parser/")
 		}
 		if !more {
